@@ -184,7 +184,7 @@ class Check:
         with lake_lock():
             from harness import translate
 
-            tr = translate.run(REPO, LEAN / "Gen")
+            tr = translate.run(REPO, LEAN / "Gen", self.prop)
             self.extra["translator"] = tr
             for item, st in tr.items():
                 if not st.get("ok"):
